@@ -852,10 +852,13 @@ impl Gen {
                 c.push((*d, *amt));
             }
         }
+        let k = if c.is_empty() { 0 } else { r.below(c.len() as u64) as usize };
         match r.below(40) {
-            0 if !c.is_empty() => { c[0].1 = c[0].1.saturating_add(1); }
-            1 if !c.is_empty() => { c[0].1 = c[0].1.saturating_sub(1); }
-            2 if !c.is_empty() => { c.remove(0); }
+            0 if !c.is_empty() => { c[k].1 = c[k].1.saturating_add(1); }
+            1 if !c.is_empty() => { c[k].1 = c[k].1.saturating_sub(1); }
+            2 if !c.is_empty() => { c.remove(k); }
+            5 if !c.is_empty() => { c[k].1 = c[k].1 / 2; }
+            6 if !c.is_empty() => { c[k].1 = c[k].1.saturating_mul(2); }
             3 => { c.push((r.below(9), 1 + r.below(1000) as u128)); }
             4 => { c.insert(0, (r.below(9), r.below(3) as u128)); }
             _ => {}
